@@ -147,6 +147,7 @@ coap_response_t resp_cb(coap_session_t *, const coap_pdu_t *, const coap_pdu_t *
 void nack_cb(coap_session_t *, const coap_pdu_t *sent, const coap_nack_reason_t reason, const coap_mid_t mid) {
   g->w.log("NACK mid=%04x reason=%d sent=%d", (unsigned)mid & 0xffff, (int)reason, sent != nullptr);
   if (!sent) return;
+  if (g->w.aborted) return;     // tear-down of a run that was cut off (reported as M-live.abort): its session-close NACKs are not judged
   Bytes tok = cx::tok_of(sent);
   Xfer *x = by_token(tok);
   if (!x) {
@@ -419,7 +420,7 @@ struct C09 : Property {
         }
         // 3. an abandoned Confirmable exchange is reported
         // (a Non-confirmable separate response that the network lost cannot be recovered by anybody: open-ended, as in C07)
-        if (x.con && !successes && !errors && !x.nacks && !cw.non_response_lost.count(x.id)) bad("no_conclusion", x.put ? "put" : "get", "Confirmable transfer ended with neither a response nor a NACK at quiescence");
+        if (x.con && !successes && !errors && !x.nacks && !cw.non_response_lost.count(x.id)) bad("no_conclusion", std::string(x.put ? "put" : "get") + (!x.put && !plan["config"].value("stable_etag", true) && any_fault ? ",representation_changes_between_requests,faults_fired" : ""), "Confirmable transfer ended with neither a response nor a NACK at quiescence");
       }
     }
     res.nontrivial = any_fault && res.counters.count("probe.block_num_gt0");
